@@ -596,18 +596,30 @@ func (nt *vfbNet) TakeQueue() []*vfbQueued {
 	return q
 }
 
-// vfbStream adapts a channel to the SyncStream interface the real SyncChain serves on.
+// vfbStream adapts a channel to the SyncStream interface the real SyncChain serves on. Like a gRPC
+// server stream, Send after the end of the call fails instead of panicking.
 type vfbStream struct {
-	ctx  context.Context
-	out  chan<- *proto.BeaconPacket
-	tap  func(*proto.BeaconPacket)
-	gate func(*proto.BeaconPacket) // optional: may block (C11/C12 schedules)
+	ctx    context.Context
+	out    chan<- *proto.BeaconPacket
+	tap    func(*proto.BeaconPacket)
+	gate   func(*proto.BeaconPacket) // optional: may block (C11/C12 schedules)
+	mu     sync.Mutex
+	closed bool
 }
 
 func (s *vfbStream) Context() context.Context { return s.ctx }
 func (s *vfbStream) Send(b *proto.BeaconPacket) error {
 	if s.gate != nil {
 		s.gate(b)
+	}
+	// a real transport serialises inside Send; the packet may alias store memory that is only valid
+	// during the server's read transaction (bolt mmap), so copy it here
+	b = &proto.BeaconPacket{Round: b.GetRound(), Signature: append([]byte(nil), b.GetSignature()...),
+		PreviousSignature: append([]byte(nil), b.GetPreviousSignature()...), Metadata: b.GetMetadata()}
+	s.mu.Lock()
+	defer s.mu.Unlock()
+	if s.closed {
+		return errors.New("vfb: stream closed")
 	}
 	if s.tap != nil {
 		s.tap(b)
@@ -617,6 +629,16 @@ func (s *vfbStream) Send(b *proto.BeaconPacket) error {
 		return nil
 	case <-s.ctx.Done():
 		return s.ctx.Err()
+	}
+}
+
+// finish ends the stream: the client side sees its channel closed.
+func (s *vfbStream) finish() {
+	s.mu.Lock()
+	defer s.mu.Unlock()
+	if !s.closed {
+		s.closed = true
+		close(s.out)
 	}
 }
 
@@ -648,8 +670,9 @@ func (c *vfbClient) SyncChain(ctx context.Context, p net.Peer, in *proto.SyncReq
 	h := to.handler
 	sctx := vfbPeerCtx(ctx, c.from.addr)
 	go func() {
-		defer close(out)
-		st := &vfbStream{ctx: sctx, out: out, tap: func(b *proto.BeaconPacket) {
+		var st *vfbStream
+		defer func() { st.finish() }()
+		st = &vfbStream{ctx: sctx, out: out, tap: func(b *proto.BeaconPacket) {
 			nt.record(vfbEvent{Kind: "sync-send", Node: to.pos, From: c.from.pos, Round: b.GetRound(), Prev: b.GetPreviousSignature(), Sig: b.GetSignature(), Idx: -1})
 			nt.run.Count("sync_beacons_served", 1)
 			if nt.onSyncSend != nil {
